@@ -77,6 +77,8 @@ namespace ip {
 		m_queue_size_limit = -1;
 		cancel(ec);
 		socket::close(ec);
+		// reset the connections that were queued but never accepted
+		check_accept_queue();
 	}
 
 	void tcp::acceptor::close()
